@@ -25,9 +25,36 @@ static int parse_ints(char const *s, long *o, int max)
     }
     return n;
 }
-static double cx(int v, int r, int c) { return v == 1 ? 2 + 7 * r + c : 13 * c - 5 * r - 1; }
-static double cy(int v, int r, int c) { return v == 1 ? 3 + 2 * r + 11 * c : 4 - 3 * r + 2 * c; }
-static double cv(int v, int i) { return v == 1 ? 5 + 3 * i : 7 - 4 * i; }
+static double cx(int v, int r, int c)
+{
+    switch (v)
+    {
+    case 1: return 2 + 7 * r + c;
+    case 2: return 13 * c - 5 * r - 1;
+    case 3: return (r + 2 * c) % 3 == 0 ? 0 : 1 + r + 4 * c;
+    default: return c == 0 ? 0 : 5 * r - c - 2;
+    }
+}
+static double cy(int v, int r, int c)
+{
+    switch (v)
+    {
+    case 1: return 3 + 2 * r + 11 * c;
+    case 2: return 4 - 3 * r + 2 * c;
+    case 3: return (2 * r + c) % 3 == 1 ? 0 : 2 + 3 * r - c;
+    default: return r == 0 ? 0 : r + c;
+    }
+}
+static double cv(int v, int i)
+{
+    switch (v)
+    {
+    case 1: return 5 + 3 * i;
+    case 2: return 7 - 4 * i;
+    case 3: return i % 2 == 0 ? 0 : i;
+    default: return i - 2;
+    }
+}
 static double *mat(int m, int n, int v, int which)
 {
     double *p = (double *)malloc(sizeof(double) * (size_t)(m * n ? m * n : 1));
